@@ -466,6 +466,10 @@ def run_breadlog(root, check=False, plan=None, knobs=None, binary=None):
         cwd = "/"
         cfg = os.path.join(proj, cfgname)
     tmpdir = os.path.join(root, knobs.get("tmpdir", "tmp"))
+    if knobs.get("tmpdir_rel"):
+        tmpdir = os.path.relpath(tmpdir, cwd)     # a relative TMPDIR is resolved against the working directory
+    if knobs.get("tmpdir_slash"):
+        tmpdir += "/"
     env = {
         "PATH": "/usr/bin:/bin",
         "TMPDIR": tmpdir,
@@ -475,8 +479,16 @@ def run_breadlog(root, check=False, plan=None, knobs=None, binary=None):
         "SIM_TRACE": trace_path,
         "ASYNC_STD_THREAD_COUNT": str(knobs.get("threads", 2)),
     }
-    argv = [binary, "-c", cfg]
-    if check:
+    style = knobs.get("argv_style", "short")
+    if style == "long":
+        argv = [binary, "--config", cfg]
+    elif style == "long_eq":
+        argv = [binary, "--config=" + cfg]
+    elif style == "check_first" and check:
+        argv = [binary, "--check", "-c", cfg]
+    else:
+        argv = [binary, "-c", cfg]
+    if check and "--check" not in argv:
         argv.append("--check")
     argv += knobs.get("extra_args", [])
     res = RunResult()
